@@ -1,10 +1,39 @@
 """Rules about the children map of a metric vector (C10; R2 is also a necessary condition of C01 and C05)."""
+import re
 from pvrules.mir import is_call, peel, show, strip_generics, subterms
 from pvrules.rules import SELF_FIELD, count_range, result_assign_blocks, try_continue_block
 
 MV = "prometheus::vec::MetricVecCore::"
 P1, P2, P3 = ("param", 1), ("param", 2), ("param", 3)
 CHILDREN = SELF_FIELD("children")
+
+
+def children_wrapper_field(f):
+    """None when MetricVecCore.children is the RwLock itself; the field name when it is a crate-private struct whose only field is that RwLock
+    (`struct Children<M> { map: RwLock<HashMap<u64, M, ..>> }`, its methods expanded in place); False when it is neither."""
+    adt = f.adt("prometheus::vec::MetricVecCore")
+    if not adt:
+        return False
+    ty = {x["name"]: x for x in adt["variants"][0]["fields"]}.get("children", {}).get("ty", "")
+    if "RwLock<" in ty and "HashMap<u64" in ty:
+        return None
+    w = f.adt(re.sub(r"<.*$", "", ty))
+    if w and len(w["variants"]) == 1 and len(w["variants"][0]["fields"]) == 1:
+        fl = w["variants"][0]["fields"][0]
+        if "RwLock<" in fl["ty"] and "HashMap<u64" in fl["ty"] and fl.get("vis") != "pub":
+            return fl["name"]
+    return False
+
+
+def is_children_lock(f, t):
+    """t (receiver of read()/write()) is the lock of self.children."""
+    wf = children_wrapper_field(f)
+    t = peel(t)
+    if wf is None:
+        return t == CHILDREN
+    if wf is False:
+        return False
+    return isinstance(t, tuple) and len(t) == 3 and t[0] == "field" and t[2] == wf and peel(t[1]) == CHILDREN
 GUARD_T = ["Deref::deref", "DerefMut::deref_mut"]
 
 
@@ -62,7 +91,7 @@ def rule_double_checked_creation(ctx, f, rid):
         return
     ctx.saw(b)
     locks = lock_calls(b)
-    ok = len(locks) == 1 and locks[0].matches("RwLock::write") and peel(locks[0].args[0]) == CHILDREN
+    ok = len(locks) == 1 and locks[0].matches("RwLock::write") and is_children_lock(f, locks[0].args[0])
     ctx.ob(rid, "get_or_create_metric|one-write-guard", ok, "exactly one acquisition, the write lock of self.children, is expected (found %s)" % locks, site=b.raw["span"]["at"])
     if not ok:
         return
@@ -129,8 +158,18 @@ def rule_double_checked_creation(ctx, f, rid):
             for st in b.blocks[bi]["stmts"]:
                 if st["k"] == "assign" and st["pl"]["l"] == 0 and st["rv"]["k"] == "agg":
                     ret_ok = peel(b.term_operand(st["rv"]["ops"][0])) == built
+    if not ret_ok:
+        # the Ok may be built in another local first (the result place of an expanded helper) and moved to the return place: every Ok built after the insertion carries the built child
+        from pvrules import seqeval as _sq
+        oks = []
+        for bi in b.reach(ic.bb):
+            for st in b.blocks[bi]["stmts"]:
+                if st["k"] == "assign" and not st["pl"]["p"] and st["rv"]["k"] == "agg" and st["rv"].get("agg") == "adt" and st["rv"]["adt"].endswith("result::Result") and st["rv"].get("variant") == "Ok":
+                    oks.append(peel(_sq._unwrap_payload(b.term_operand(st["rv"]["ops"][0]), built, b)))
+        ret_ok = bool(oks) and all(x == built for x in oks) and all(v in ("Ok", "Err") for v in b.return_variants_ps(ic.bb))
     ins_val = ic.args[2] if ic.matches("HashMap::insert") else ic.args[1]
-    ctx.ob(rid, "get_or_create_metric|returns-inserted", ret_ok and peel(ins_val) == built,
+    from pvrules import seqeval as _sq2
+    ctx.ob(rid, "get_or_create_metric|returns-inserted", ret_ok and (peel(ins_val) == built or peel(_sq2._unwrap_payload(ins_val, built, b)) == built),
            "the child returned after creation must be the one inserted into the map (both clones of the single build result)", site=ic.span)
 
 
@@ -141,7 +180,7 @@ def rule_all_access_through_lock(ctx, f, rid):
     if adt:
         fs = {x["name"]: x for x in adt["variants"][0]["fields"]}
         ty = fs.get("children", {}).get("ty", "")
-        ctx.ob(rid, "children|type", ty.startswith("parking_lot::lock_api::RwLock<parking_lot::RawRwLock, std::collections::HashMap<u64,") or ty.startswith("parking_lot::RwLock<std::collections::HashMap<u64,") or "RwLock<" in ty and "HashMap<u64" in ty,
+        ctx.ob(rid, "children|type", children_wrapper_field(f) is not False,
                "children must be an RwLock around the map keyed by the 64-bit hash (found %s)" % ty, site=adt["span"]["at"])
         ctx.ob(rid, "children|not-public", fs.get("children", {}).get("vis") != "pub" or adt["vis"] != "pub",
                "the children map must not be reachable from outside the crate (MetricVecCore is crate-private)")
@@ -159,9 +198,17 @@ def rule_all_access_through_lock(ctx, f, rid):
         for c in b.calls():
             for i, a in enumerate(c.args):
                 s = strip_refs(a)
-                if isinstance(s, tuple) and len(s) == 3 and s[0] == "field" and s[2] == "children" and "MetricVecCore" in _base_ty(b, s):
+                wf = children_wrapper_field(f)
+                if wf and isinstance(s, tuple) and len(s) == 3 and s[0] == "field" and s[2] == wf and isinstance(peel(s[1]), tuple) and len(peel(s[1])) == 3 \
+                        and peel(s[1])[0] == "field" and peel(s[1])[2] == "children":
+                    s = peel(s[1])     # the lock inside the private wrapper struct
                     n += 1
                     if not (i == 0 and c.matches(["RwLock::read", "RwLock::write"])):
+                        bad.append((b, c))
+                    continue
+                if isinstance(s, tuple) and len(s) == 3 and s[0] == "field" and s[2] == "children" and "MetricVecCore" in _base_ty(b, s):
+                    n += 1
+                    if not (i == 0 and c.matches(["RwLock::read", "RwLock::write"])) or wf:
                         bad.append((b, c))
         for bi, si, pl, rv in b.stores():
             t = b.term_place(pl)
@@ -214,7 +261,7 @@ def rule_no_guard_across_acquisition(ctx, f, rid):
         b = f.bodies[k]
         if "MetricVecCore" not in b.path:
             continue
-        locks = [l for l in lock_calls(b) if peel(l.args[0]) == CHILDREN]
+        locks = [l for l in lock_calls(b) if is_children_lock(f, l.args[0])]
         for i, l1 in enumerate(locks):
             for l2 in locks:
                 if l1 is l2 or l2.bb not in b.strictly_after(l1.bb):
@@ -239,7 +286,7 @@ def rule_single_critical_section(ctx, f, rid):
             continue
         ctx.saw(b)
         locks = lock_calls(b)
-        ok = len(locks) == 1 and locks[0].matches(lk) and peel(locks[0].args[0]) == CHILDREN and count_range(b, [locks[0].bb])[1] == 1
+        ok = len(locks) == 1 and locks[0].matches(lk) and is_children_lock(f, locks[0].args[0]) and count_range(b, [locks[0].bb])[1] == 1
         ctx.ob(rid, m + "|one-guard", ok, "%s must acquire the children lock exactly once with %s (found %s)" % (m, lk.split("::")[1], locks), site=b.raw["span"]["at"])
         if not ok:
             continue
